@@ -201,3 +201,84 @@ def split_sessions(path, n):
     if out:
         out.close()
     return parts
+
+
+def cbrun_descriptor(rec, clause):
+    return {"family": "cbrun", "clause": clause, "verdict": rec.get("verdict"), "exit": rec.get("exit"),
+            "nboards": len(rec.get("boards", [])), "rows": len(rec.get("rows", [])), "case": rec.get("case", "")[:1]}
+
+
+def check_C20(tier):
+    res = Result("C20", tier, "model_checking")
+    res.rule = ("E1 (CbTime.tla): hardware model with W=8 (3-bit clock), 3 wraps, displacement up to 2 ticks, "
+                "<= 6 (thorough 8) FIFO entries, one dropped or duplicated marker; theorems NeverWrong (a non-empty "
+                "reconstructed time equals the true time), HealthyGetsTime, MarkersConsistent over every reachable "
+                "FIFO. E2: random behaviours of the model (TLC -simulate) are scaled to 24-bit timestamps, given "
+                "scaler blocks, cut at arbitrary byte positions into CBFn banks / events / .mid and .mid.lz4 files "
+                "(argument order shuffled) and run through the real alpha-g-chronobox-timestamps; seeded wire-width "
+                "streams add 0..8 wraps, 1..4 boards, leftovers before the counter-0 marker, marker faults, corrupted "
+                "words and truncated tails. E3 (Trace_CbTime): from each board's byte stream the spec parses entries "
+                "(CbWords), decides Fails/Rows (CbRows, W=2^24) and compares exit status, CSV existence, header and "
+                "every row (board grouping/order, channel, edge, time in ticks or empty), and non-empty times with "
+                "the model's true time. distinct_nontrivial = runs whose CSV has >= 1 row with a time and >= 1 without, "
+                "or that must fail")
+    res.assumptions = ["CbWords/CbRows/CbTime are the reference semantics", "MIDAS writer of the harness (accepted by midasio)",
+                       "a counter-0 marker with its top bit set is left unspecified by the statement"]
+    ent = 6 if tier == "quick" else 8
+    cfg = write_cfg("MC_CbTime_" + tier, constants={"W": 8, "MaxTime": 24, "MaxEntries": ent, "D": 2, "MaxFaults": 1},
+                    invariants=["NeverWrong", "HealthyGetsTime", "MarkersConsistent"])
+    r = tlc_model_check("MC_CbTime", cfg, "mc_cbtime_" + tier, expect_actions=["Tick", "Edge", "DropMarker", "DupMarker"],
+                        workers=8, timeout=3000)
+    res.add_mc(r)
+    cfg2 = write_cfg("MC_CbTime_sim", constants={"W": 8, "MaxTime": 32, "MaxEntries": 14, "D": 2, "MaxFaults": 1},
+                     invariants=["Export"])
+    nsim = 150 if tier == "quick" else 3000
+    r2 = run_tlc("MC_CbTime", cfg2, "mc_cbtime_sim_" + tier, workers=1, coverage=False, simulate=nsim, depth=60,
+                 env_extra={"_SEED": str(seed())})
+    if r2["error"]:
+        raise ToolError("simulation export failed: %s" % r2["error"])
+    beh = os.path.join(BUILD, "traces", "C20_beh.ndjson")
+    seen = set()
+    with open(beh, "w") as f:
+        for c in r2["replay"]:
+            s = json.dumps(c)
+            if s not in seen:
+                seen.add(s)
+                f.write(s + "\n")
+    if not seen:
+        raise ToolError("no behaviours exported")
+    bins = build_bins()
+    nrand = 200 if tier == "quick" else 10000
+    trace = os.path.join(BUILD, "traces", "C20_trace.ndjson")
+    work = os.path.join(BUILD, "work_C20")
+    res.evaluations += run_vh(["cbrun", "--bin", os.path.join(bins, "alpha-g-chronobox-timestamps"), "--work", work,
+                               "--in", beh, "--n", str(nrand), "--seed", str(seed())], trace, timeout=7200)
+    shutil.rmtree(work, ignore_errors=True)
+    for k, part in enumerate(split_file(trace, 4000)):
+        validate_dec_trace(res, part, "C20_%d" % k, module="Trace_CbTime", descriptor=cbrun_descriptor)
+    nt = 0
+    with open(trace) as f:
+        for line in f:
+            rec = json.loads(line)
+            rows = rec.get("rows", [])
+            if rec.get("verdict") == "err" or (any(x[3] >= 0 for x in rows) and any(x[3] < 0 for x in rows)):
+                nt += 1
+            if len(res.samples) < 3 and 2 <= len(rows) <= 8:
+                res.add_sample(slim(rec, 40), 3)
+    res.distinct = nt
+    res.extra["behaviours_exported"] = len(seen)
+    if tier == "thorough":
+        lines = open(trace).readlines()
+        for line in lines:
+            rec = json.loads(line)
+            if len(rec.get("rows", [])) >= 2:
+                break
+        rec["rows"] = rec["rows"][:-1]
+        p2 = trace + ".selftest"
+        open(p2, "w").write(json.dumps(rec) + "\n")
+        _, mism, _ = tlc_validate("Trace_CbTime", p2, "C20_self")
+        okk = any(m[0] == rec["i"] for m in mism)
+        res.extra["binding_selftest"] = {"corrupted_record": rec["i"], "rejected": okk, "how": "dropped the last CSV row"}
+        if not okk:
+            raise ToolError("binding self-test failed")
+    return res.finish()
